@@ -61,6 +61,11 @@ pub fn verif_max<T: VerifMinMax>(a: T, b: T) -> (r: T)
 pub fn verif_min<T: VerifMinMax>(a: T, b: T) -> (r: T)
     ensures r == (if a.vmm_le(b) { a } else { b })
 { a.verif_min_impl(b) }
+
+// std functions without a vstd specification in this build (contracts = std documentation)
+pub assume_specification<T, E>[ Result::<T, E>::unwrap_or ](res: Result<T, E>, default: T) -> (out: T)
+    ensures out == (match res { Ok(t) => t, Err(_) => default }),
+;
 // ======== include spec/bvmath.rs ========
 // ---------------------------------------------------------------------------
 // spec/bvmath.rs -- mathematical vocabulary for fixed-width bitvectors.
